@@ -174,6 +174,16 @@ CLAIMED.update({
             "Symbolic limits k in {7, 8, 15, 16, 31, 32, 63}, d in -2..2, plus small numbers; ANSI / Oracle int never judged too "
             "small; 8 tabulated names for keyword quoting; only bounded Integer ranges.",
             "DESIGN.md section 5, C19"),
+    "C17": ("TLA+ specs CidLoad.tla and Session.tla supply the expected interface definition and per-row verdicts (storage is not a "
+            "variable of either model); every valid CID TLC generates is stored as csv / ods / xlsx and loaded with "
+            "cutplace.Cid(path), every generated table is stored as delimited text / ods / xlsx under CIDs differing only in "
+            "Format with columns of every field type",
+            "Nine-fold replay against the specification's prediction: the three loaded definitions must equal the predicted one "
+            "and each other attribute by attribute (format settings, fields with class / flag / length / rule, checks); per-row "
+            "verdicts, end-of-data verdict and returned values must equal Session.tla's prediction in all three data storages.",
+            "TLC decides nothing about storage itself (structural in the model); ragged tables are not compared; cells are written "
+            "as strings; quick tier samples 400 tables.",
+            "DESIGN.md section 5, C17"),
 })
 
 NOT_BUILT = "check not built yet in this round (planned: see DESIGN.md section 5)"
